@@ -5,7 +5,6 @@ import (
 	"encoding/base64"
 	"fmt"
 	"io"
-	"os"
 	"strings"
 	"sync"
 
@@ -102,6 +101,12 @@ func MakeMod(i int, variant string) Mod {
 		p = fmt.Sprintf("m%d.example/Upper%d", i, i)
 	}
 	v := fmt.Sprintf("v1.0.%d", i)
+	switch i % 4 {
+	case 1:
+		v = fmt.Sprintf("v1.0.%d-RC.%d", i, i) // upper case in the version: escaped in lookup and cache paths
+	case 3:
+		v = fmt.Sprintf("v0.0.0-20240102150405-ABCdef%06d", i)
+	}
 	text := fmt.Sprintf("%s %s %s\n%s %s/go.mod %s\n", p, v, h1(p+v+variant), p, v, h1(p+v+"mod"+variant))
 	return Mod{p, v, []byte(text)}
 }
@@ -232,7 +237,8 @@ func (l *SignedLog) ServeCompacting(rpath string, size int) ([]byte, error) {
 			full := t
 			full.W = 1 << uint(t.H)
 			if _, ok := TrueTile(l.Log, size, full); ok {
-				return nil, os.ErrNotExist
+				// a plain error value: ClientOps.ReadRemote promises nothing about error types
+				return nil, fmt.Errorf("GET %s: 404 Not Found", rpath)
 			}
 		}
 	}
@@ -257,7 +263,7 @@ func (l *SignedLog) Serve(rpath string, size int) ([]byte, error) {
 		}
 		id := l.Find(p, v)
 		if id < 0 || id >= size {
-			return nil, os.ErrNotExist
+			return nil, fmt.Errorf("GET %s: 404 Not Found", rpath)
 		}
 		return l.LookupResponse(id, size), nil
 	case strings.HasPrefix(rpath, "/tile/"):
@@ -267,11 +273,11 @@ func (l *SignedLog) Serve(rpath string, size int) ([]byte, error) {
 		}
 		d, ok := TrueTile(l.Log, size, t)
 		if !ok {
-			return nil, os.ErrNotExist
+			return nil, fmt.Errorf("GET %s: 404 Not Found", rpath)
 		}
 		return d, nil
 	}
-	return nil, os.ErrNotExist
+	return nil, fmt.Errorf("GET %s: 404 Not Found", rpath)
 }
 
 // SignText signs an arbitrary note text with the real key (a misbehaving operator).
